@@ -384,6 +384,7 @@ def r_global_search(rep, prog):
                 c = tm.operand(b.term(s)["discr"])
                 if c[0] == "discr" and any(x[0] == "call" and x[1].endswith("ops::function::Fn::call") for x in T.walk(c)):
                     ok_edge = True
+            ok_edge = ok_edge or early_exit_has_result(b, prog, d, [(bi, t) for bi, t in acc_calls if _is_access(tm, t)])
             rep.check(ok_edge, rule, "%s|early-exit" % fn, "early exit only on a non-Memory access result",
                       "the search loop can be left early at bb%d -> bb%d without an access result" % (a, d), b.term(a).get("span"))
 
@@ -430,6 +431,30 @@ def _offset_forms(t):
             out.add(("+" if sign > 0 else "-") + T.show(x)[:40])
     go(t, 1)
     return out
+
+
+def early_exit_has_result(b, prog, d, acc_calls):
+    """Path-sensitive form of `left early only with a non-Memory access result`: in every state entering block d the result of
+    an access call of the loop is known to be Ok, or Err with a known error other than Memory."""
+    mem = [v["discr"] for v in prog.crate("llfree").adts["llfree::Error"]["variants"] if v["name"] == "Memory"][0]
+    ps = PathSens(b, prog, track=lambda n: bool(n) and n.endswith("ops::function::Fn::call"))
+    sts = ps.states_at(d)
+    if not sts or not acc_calls:
+        return False
+    dests = [t["dest"]["l"] for _, t in acc_calls if not t["dest"].get("p")]
+    for _, env in sts:
+        ok = False
+        for dl in dests:
+            dv = env.get(("d", dl, ()))
+            if dv == 0:
+                ok = True
+            elif dv == 1 and env.get(("d", dl, ("as1", ".0"))) not in (None, mem):
+                ok = True
+            elif dv == 1 and mem in env.get(("nd", dl, ("as1", ".0")), ()):
+                ok = True        # tested and found to be another error than Memory
+        if not ok:
+            return False
+    return True
 
 
 def _mentions_next(b, tm, t, depth=0):
